@@ -5,16 +5,29 @@ self-contained snippet) -- primitives of each type, None, pg.MISSING_VALUE,
 plain and symbolic lists, dicts with permuted key orders, tuples of mutually
 comparable primitives, objects of several pg.Object classes (subclass with /
 without extra field, partial object, same-qualname classes, a class that opts
-out of symbolic comparison) and nestings.  The pool is built twice (X and Y,
-independent constructions) so that the identity short cut of pg.eq does not
-hide anything.  All ordered pairs and all triples are checked through the
-pair tables; the thorough tier adds seeded random nestings.
+out of symbolic comparison) and nestings; every leaf kind that eq / lt / hash
+handle by a branch of their own -- functions (same byte code with other
+constants / docstring / defaults / closure cells, other byte code), bound,
+unbound, static and class methods, builtins, classes, sets -- at top level and
+below lists, dicts and objects; objects of classes made by the library's class
+factories (pg.functor, pg.symbolize, pg.wrap(eq=True)); and library classes
+(hyper primitives, and the classes that override a sym_* comparison method:
+pg.Ref, CustomDecisionPoint).  The pool is built twice (X and Y, independent
+constructions) so that the identity short cut of pg.eq does not hide anything.
+All ordered pairs and all triples are checked through the pair tables; the
+thorough tier adds seeded random nestings.  A third driver checks the same
+laws on values that have been *mutated* (every mutator, every notification
+mode, after every observer has been used, in place or on a copy).
 
 The oracles are the laws of the statement.  The only extra reference is a
 structural model of the *pool* (the same expressions evaluated with plain
-Python stand-ins) which says which pool values denote the same value.
+Python stand-ins) which says which pool values denote the same value; it has
+no verdict for values that hold functions / methods / references (the
+statement does not say when two functions are the same value; for them only
+the laws are checked).
 """
 import functools
+import inspect
 import itertools
 
 import pyglove as pg
@@ -31,25 +44,50 @@ _PARTS = {
           "L1, L2 = _mk(), _mk()\n"),
     'PD': ("PD = lambda **kw: pg.Dict.partial(kw, value_spec=pg.typing.Dict("
            "[('a', pg.typing.Any()), ('b', pg.typing.Any())]))\n"),
+    # functions: same byte code / other constants, other byte code, other
+    # docstring, other defaults, other closure cells.
+    'FN': ("f_add1 = lambda v: v + 1\nf_add2 = lambda v: v + 2\nf_mul = lambda v: v * 2\n"
+           "def g_a(v):\n  'Scales v.'\n  return v * 10\n"
+           "def g_b(v):\n  'Scales v (other doc).'\n  return v * 100\n"
+           "def g_k1(v, k=1): return v + k\ndef g_k2(v, k=2): return v + k\n"
+           "def _mkc(n): return lambda v: v + n\nc_1, c_2 = _mkc(1), _mkc(2)\n"),
+    # methods: bound (same / other receiver), unbound, static, class methods.
+    'H': ("class H:\n  def m1(self): return 'one'\n  def m2(self): return 'two'\n"
+          "  def m3(self, v): return v\n  @staticmethod\n  def s1(): return 1\n"
+          "  @classmethod\n  def k1(cls): return 1\n  @classmethod\n  def k2(cls): return 2\n"
+          "h1, h2 = H(), H()\n"),
+    # classes made by the library's class factories.
+    'F': "@pg.functor()\ndef F(x, y=1): return x\n",
+    'W': ("@pg.symbolize\nclass W:\n  def __init__(self, x, y=0): self.x = x\n"
+          "class _K:\n  def __init__(self, x, y=0): self.x = x\nWE = pg.wrap(_K, eq=True)\n"),
+    # referenced values (pg.Ref compares its target by identity).
+    'R': "r_1, r_2, r_3 = A(1), A(1), A(2)\n",
+    # a class with typed fields (mutation driver).
+    'T': ("@pg.members([('n', pg.typing.Int(default=0)), ('tags', pg.typing.List(pg.typing.Int(), default=[])),\n"
+          "  ('sub', pg.typing.Dict([('u', pg.typing.Int(default=1)), ('w', pg.typing.Any(default=None))]))])\n"
+          "class T(pg.Object): pass\n"),
 }
 PRE = 'import pyglove as pg\n' + ''.join(_PARTS.values())
+
+# part -> names whose use in an expression needs the part.
+_PART_NAMES = {
+    'A': ('A', 'A2', 'B', 'r_1', 'r_2', 'r_3'), 'A2': ('A2',), 'B': ('B',), 'C': ('C',),
+    'N': ('N',), 'L': ('L1', 'L2'), 'PD': ('PD',),
+    'FN': ('f_add1', 'f_add2', 'f_mul', 'g_a', 'g_b', 'g_k1', 'g_k2', 'c_1', 'c_2'),
+    'H': ('H', 'h1', 'h2'), 'F': ('F',), 'W': ('W', 'WE'), 'R': ('r_1', 'r_2', 'r_3'),
+    'T': ('T',),
+}
+_NEEDS_F = ('A', 'A2', 'B', 'C', 'N', 'L')
 
 
 def _pre(*exprs):
   """The part of the preamble that the expressions need (witnesses are capped at 1200 chars)."""
   import re
   text = ' '.join(exprs)
-  names = set(re.findall(r'\b(A2|A|B|C|N|L1|L2|PD)\b', text))
-  need = []
-  if names & {'A', 'A2', 'B'}:
-    need.append('A')
-  for n in ('A2', 'B', 'C', 'N', 'PD'):
-    if n in names:
-      need.append(n)
-  if names & {'L1', 'L2'}:
-    need.append('L')
+  names = set(re.findall(r'[A-Za-z_][A-Za-z_0-9]*', text))
+  need = [p for p in _PARTS if p in _PART_NAMES and names & set(_PART_NAMES[p])]
   out = 'import pyglove as pg\n'
-  if any(n != 'PD' for n in need):
+  if any(n in _NEEDS_F for n in need):
     out += _PARTS['_f']
   return out + ''.join(_PARTS[n] for n in need)
 
@@ -86,6 +124,37 @@ POOL = [
     'PD()', 'PD(a=1)', 'PD(b=1)', 'PD(a=1, b=2)', 'PD(b=2, a=1)', "{'a': N(1)}", '[N(1), 0]', '[N(1), 1]', "{'a': N(1), 'b': 0}", "{'a': N(1), 'b': 1}", 'A(N(1))', 'C(N(1), 0)', 'C(N(1), 1)',
     "[{'a': 1, 'c': 0}]", "[{'a': 1, 'b': 2}, 1]", "[{'b': 2, 'a': 1}, 0]",
     '[A(1)]', '[A(2)]', "{'a': A(1)}", '(1, 1)', "pg.Dict(a=A(1))",
+    # -- leaf kinds with their own branch in eq / lt / hash --------------------
+    # functions (names are shared objects, parenthesised lambdas are built anew).
+    'f_add1', 'f_add2', 'f_mul', '(lambda v: v + 1)', '(lambda v: v + 3)',
+    '(lambda v: v * 2)', 'g_a', 'g_b', 'g_k1', 'g_k2', 'c_1', 'c_2',
+    # methods, builtins, classes.
+    'h1.m1', 'h1.m2', 'h2.m1', 'h1.m3', 'H.m1', 'H.s1', 'H.k1', 'H.k2',
+    'len', 'abs', 'int', 'str', 'A', 'A2', 'H',
+    # callables below containers and objects.
+    'A(f_add1)', 'A(f_add2)', 'A(f_mul)', 'A(h1.m1)', 'A(h1.m2)', 'A(int)',
+    'A(str)', '[f_add1]', '[f_add2, 0]', '[f_add1, 1]', "{'a': g_a}",
+    "{'a': g_b}", 'pg.Dict(f=[g_a])', 'pg.Dict(f=[g_b])',
+    'C(f_add1, 1)', 'C(f_add2, 0)',
+    # sets.
+    'set()', '{1}', '{2}', '{1, 2}', 'frozenset({1})', 'A(frozenset({1}))',
+    'A(frozenset({2}))',
+    # -- classes made by the library's factories ------------------------------
+    'F(1)', 'F(1, 1)', 'F(1, 2)', 'F(2)', 'F.partial()', 'W(1)', 'W(1, 0)',
+    'W(2)', 'WE(1)', 'WE(1, 0)', 'WE(2)', 'A(W(1))', 'A(WE(1))',
+    # -- library classes (representatives; the ones that override a sym_*
+    #    comparison method: Ref, CustomDecisionPoint.  pg.Diff is left out: its
+    #    sym_eq deliberately equates a Diff without difference with the plain
+    #    value, it is a report of a comparison rather than a value) ------------
+    'pg.oneof([1, 2])', 'pg.oneof([1, 3])', 'pg.floatv(0.0, 1.0)',
+    'pg.manyof(2, [1, 2, 3])', "pg.oneof([1, 2], name='n')",
+    'pg.Ref(r_1)', 'pg.Ref(r_2)', 'pg.Ref(r_3)', 'A(pg.Ref(r_1))',
+    'A(pg.Ref(r_2))', '[pg.Ref(r_1), 0]', '[pg.Ref(r_1), 1]',
+    "pg.geno.CustomDecisionPoint(hyper_type='t', next_dna_fn=f_add1)",
+    "pg.geno.CustomDecisionPoint(hyper_type='t', next_dna_fn=f_add2)",
+    "pg.geno.CustomDecisionPoint(hyper_type='t')",
+    "pg.geno.CustomDecisionPoint(hyper_type='u')",
+    '-0.0',
 ]
 
 QUICK_SKIP = set()   # the whole pool is cheap enough for the quick tier.
@@ -143,7 +212,13 @@ _MODEL_NS = dict(
     C=_model_cls('C', ['p', 'q']), N=_model_cls('N', ['x']),
     L1=_model_cls('L1', ['x']), L2=_model_cls('L2', ['x']),
     PD=lambda **kw: {'a': kw.get('a', _MISSING), 'b': kw.get('b', _MISSING)},
+    F=_model_cls('F', ['x', 'y'], {'y': 1}), W=_model_cls('W', ['x', 'y'], {'y': 0}),
+    WE=_model_cls('WE', ['x', 'y'], {'y': 0}),
 )
+# Functions and methods are plain Python: the model holds the real ones, and
+# `_norm` refuses them (the statement does not say when two functions denote
+# the same value), so pairs with such a value get no same-value verdict.
+exec(_PARTS['FN'] + _PARTS['H'], _MODEL_NS)  # pylint: disable=exec-used
 
 
 def _norm(v):
@@ -160,11 +235,21 @@ def _norm(v):
     return ('T', tuple(_norm(x) for x in v))
   if isinstance(v, dict):
     return ('D', frozenset((k, _norm(x)) for k, x in v.items()))
+  if isinstance(v, (set, frozenset)):
+    return ('S', frozenset(_norm(x) for x in v))
   raise TypeError(v)
 
 
 def _model(expr):
   return eval(expr, dict(_MODEL_NS))  # pylint: disable=eval-used
+
+
+def _try_norm(expr):
+  """Normal form of the value of `expr`, or None if the model has no verdict."""
+  try:
+    return _norm(_model(expr))
+  except Exception:  # pylint: disable=broad-except
+    return None
 
 
 # ---------------------------------------------------------------------------
@@ -177,12 +262,79 @@ def _kind(v):
   if v is None:
     return 'none'
   for t, n in ((bool, 'bool'), (int, 'int'), (float, 'float'), (str, 'str'),
-               (list, 'list'), (tuple, 'tuple'), (dict, 'dict')):
+               (list, 'list'), (tuple, 'tuple'), (dict, 'dict'),
+               ((set, frozenset), 'set')):
     if isinstance(v, t):
       return n
+  if (inspect.isfunction(v) or inspect.ismethod(v) or inspect.isbuiltin(v)
+      or inspect.isclass(v)):
+    return 'callable'
+  if isinstance(v, pg.Ref):
+    return 'ref'
+  if isinstance(v, pg.geno.CustomDecisionPoint):
+    return 'custom'
   if isinstance(v, pg.Object):
     return 'obj'
   return type(v).__name__
+
+
+# Leaf kinds that eq / lt / hash treat by a branch of their own.  A defect of
+# such a branch shows at top level and below any container, so pairs that hold
+# such a leaf at aligned positions are labelled by the leaf pair, not by the
+# containers around it (one defect, one id).
+SPECIAL_KINDS = ('callable', 'set', 'ref', 'custom')
+
+
+def _children(v):
+  """Aligned-walk view: key -> child for containers, None for leaves."""
+  if _kind(v) in SPECIAL_KINDS:
+    return None
+  if isinstance(v, dict):
+    get = v.sym_getattr if isinstance(v, pg.Dict) else v.__getitem__
+    return {k: get(k) for k in v.keys()}
+  if isinstance(v, (list, tuple)):
+    return dict(enumerate(v))
+  if isinstance(v, pg.Object):
+    return {k: v.sym_getattr(k) for k in v.sym_keys()}
+  return None
+
+
+def _special_kinds(v, depth=0):
+  """The special leaf kinds that occur anywhere in v."""
+  k = _kind(v)
+  if k in SPECIAL_KINDS:
+    return {k}
+  out = set()
+  ch = _children(v)
+  if ch and depth < 8:
+    for c in ch.values():
+      out |= _special_kinds(c, depth + 1)
+  return out
+
+
+def _leaf_label(a, b, depth=0):
+  """'<special kind(s)>-leaves' of the first aligned pair with a special leaf, or None."""
+  ka, kb = _kind(a), _kind(b)
+  sp = sorted({k for k in (ka, kb) if k in SPECIAL_KINDS})
+  if sp:
+    return '+'.join(sp) + '-leaves'
+  if depth >= 8:
+    return None
+  if ka in ('list', 'tuple') and kb in ('list', 'tuple') or (
+      ka == kb == 'dict') or (ka not in ('list', 'tuple', 'dict') and type(a) is type(b)):
+    ca, cb = _children(a), _children(b)
+    if ca and cb:
+      for k in ca:
+        if k in cb:
+          lab = _leaf_label(ca[k], cb[k], depth + 1)
+          if lab:
+            return lab
+  return None
+
+
+def _is_special(lab):
+  return ('permuted-dict-keys' in lab or 'same-qualname-classes' in lab
+          or lab.endswith('-leaves'))
 
 
 def _has_perm(a, b):
@@ -212,6 +364,9 @@ def _pair_label(a, b):
       and type(a) is not type(b)
       and type(a).__qualname__ == type(b).__qualname__):
     return 'same-qualname-classes'
+  lab = _leaf_label(a, b)
+  if lab:
+    return lab
   return '~'.join(sorted([_kind(a), _kind(b)]))
 
 
@@ -219,7 +374,7 @@ def _multi_label(vals):
   labs = set()
   for a, b in itertools.combinations(vals, 2):
     lab = _pair_label(a, b)
-    if lab in ('permuted-dict-keys', 'same-qualname-classes'):
+    if _is_special(lab):
       labs.add(lab)
   if labs:
     return '+'.join(sorted(labs))
@@ -266,7 +421,7 @@ def _rand_expr(r, depth):
     n = r.randrange(3)
     elems = [r.choice(['0', '1', '2', '1.0', 'True']) for _ in range(n)]
     return '(' + ''.join(e + ', ' for e in elems) + ')'
-  cls = r.choice(['A', 'A', 'A2', 'B', 'C'])
+  cls = r.choice(['A', 'A', 'A2', 'B', 'C', 'F', 'W'])
   if cls == 'C':
     return f'C({_rand_expr(r, depth - 1)}, {_rand_expr(r, depth - 1)})'
   if cls == 'B' and r.random() < 0.5:
@@ -277,11 +432,19 @@ def _rand_expr(r, depth):
 _CHECK_NS = None
 
 
+def _new_ns(name):
+  """A namespace for the preamble; pg.functor looks its module up in sys.modules."""
+  import sys
+  import types
+  sys.modules.setdefault(name, types.ModuleType(name))
+  return {'__name__': name}
+
+
 def _constructible(e):
   """Random expressions that the library refuses to construct are not values."""
   global _CHECK_NS
   if _CHECK_NS is None:
-    _CHECK_NS = {'__name__': 'c06chk'}
+    _CHECK_NS = _new_ns('c06chk')
     exec(PRE, _CHECK_NS)  # pylint: disable=exec-used
   try:
     eval(e, _CHECK_NS)  # pylint: disable=eval-used
@@ -292,7 +455,7 @@ def _constructible(e):
 
 def _pool(tier, seed):
   exprs = list(POOL)
-  extra, depth = (40, 2) if tier == 'quick' else (300, 3)
+  extra, depth = (24, 2) if tier == 'quick' else (300, 3)
   r = rng(seed, 'c06-pool-' + tier)
   seen = set(exprs)
   tries = 0
@@ -306,7 +469,7 @@ def _pool(tier, seed):
 
 
 def _build(exprs):
-  ns = {'__name__': 'c06ns'}
+  ns = _new_ns('c06ns')
   exec(PRE, ns)  # pylint: disable=exec-used
   xs = [eval(e, ns) for e in exprs]  # pylint: disable=eval-used
   ys = [eval(e, ns) for e in exprs]  # pylint: disable=eval-used
@@ -341,7 +504,7 @@ def drv_laws(tier, seed):
       scope=f'{n} pool values x 2 independent constructions; all {n*n} ordered '
             f'pairs, all {n**3} triples; seed adds random nestings')
   _, xs, ys = _build(exprs)
-  norms = [_norm(_model(e)) for e in exprs]
+  norms = [_try_norm(e) for e in exprs]
 
   E = [[None] * n for _ in range(n)]     # eq(X[i], Y[j])
   L = [[None] * n for _ in range(n)]     # lt(X[i], Y[j])
@@ -416,10 +579,11 @@ def drv_laws(tier, seed):
         rec.case(f'eq.symmetric/{lab}', key, rre == req, f'eq(a,b)={req} eq(b,a)={rre}',
                  _w(ea, eb, 'assert pg.eq(a, b) == pg.eq(b, a)'))
         # which pool values denote the same value (structural model of the pool).
-        want = norms[i] == norms[j]
-        rec.case(f'eq.same-value-iff-equal/{lab}', key, req[1] == want,
-                 f'pg.eq(a, b) -> {req[1]}, structurally {"same" if want else "different"} values',
-                 _w(ea, eb, f'assert pg.eq(a, b) is {want}'))
+        if norms[i] is not None and norms[j] is not None:
+          want = norms[i] == norms[j]
+          rec.case(f'eq.same-value-iff-equal/{lab}', key, req[1] == want,
+                   f'pg.eq(a, b) -> {req[1]}, structurally {"same" if want else "different"} values',
+                   _w(ea, eb, f'assert pg.eq(a, b) is {want}'))
       if rlt[0] == 'ok':
         L[i][j] = bool(rlt[1])
       if rrl[0] == 'ok':
@@ -474,14 +638,18 @@ def drv_laws(tier, seed):
     """One id per law and input class; all order laws over triples that involve
     an order-permuted dict pair share one id (one defect)."""
     lab = tlabel(i, j, k)
-    if set(lab.split('+')) & set(special):
+    if set(lab.split('+')) & set(special) or lab.endswith('-leaves'):
       return f'triple-laws/{lab}'
     return f'{law}/{lab}'
 
   def tlabel(i, j, k):
-    labs = {perm[i][j], perm[j][k], perm[i][k]} & set(special)
+    three = (perm[i][j], perm[j][k], perm[i][k])
+    labs = set(three) & set(special)
     if labs:
       return '+'.join(sorted(labs))
+    leaves = sorted({l for l in three if l.endswith('-leaves')})
+    if leaves:
+      return '+'.join(leaves)
     return '~'.join(sorted({_kind(xs[i]), _kind(xs[j]), _kind(xs[k])}))
 
   for i in range(n):
@@ -535,8 +703,14 @@ def drv_sort(tier, seed):
       scope=f'{n_sorts} seeded samples (size 2..10, with repeats) of {n} pool values x 2 constructions, 2 shuffles each, + fixed samples')
   _, xs, ys = _build(exprs)
   allv = [(e, v) for e, v in zip(exprs, xs)] + [(e, v) for e, v in zip(exprs, ys)]
-  short = [ev for ev in allv if len(ev[0]) <= 60]     # witnesses are capped at 1200 chars.
+  short = [ev for ev in allv if len(ev[0]) <= 70]     # witnesses are capped at 1200 chars.
   r = rng(seed, 'c06-sort')
+  # Values that hold a special leaf kind (callable, set, ...) are sampled in
+  # dedicated samples (one kind at a time, mixed with ordinary values) under an
+  # id of their own, so that a defect of one leaf kind never hides the others.
+  sk = {id(v): frozenset(_special_kinds(v)) for _, v in short}
+  calm = [ev for ev in short if not sk[id(ev[1])]]
+  family = {k: [ev for ev in short if sk[id(ev[1])] == {k}] for k in SPECIAL_KINDS}
 
   byexpr = {e: v for e, v in zip(exprs, xs)}
   fixed = [list(p) for p in itertools.permutations(
@@ -547,11 +721,17 @@ def drv_sort(tier, seed):
             ['None', 'pg.MISSING_VALUE', 'False', "''", '[]', '()', '{}', 'A(None)', 'A.partial()']]
 
   for t in range(n_sorts + len(fixed)):
+    fam = None
     if t < len(fixed):
       sample = [(e, byexpr[e]) for e in fixed[t]]
+    elif t % 8 == 7 and family[SPECIAL_KINDS[(t // 8) % len(SPECIAL_KINDS)]]:
+      fam = SPECIAL_KINDS[(t // 8) % len(SPECIAL_KINDS)]
+      size = r.randrange(2, 9)
+      sample = [r.choice(family[fam]) for _ in range(2)] + [
+          r.choice(family[fam] if r.random() < 0.5 else calm) for _ in range(size - 2)]
     else:
       size = r.randrange(2, 11)
-      sample = [r.choice(short) for _ in range(size)]
+      sample = [r.choice(calm) for _ in range(size)]
     raised = []
 
     def cmp(a, b):
@@ -596,10 +776,14 @@ def drv_sort(tier, seed):
       continue
     key = tuple(e for e, _ in s1)
     lab = _multi_label([v for _, v in sample])
-    if 'permuted-dict-keys' not in lab and 'same-qualname-classes' not in lab:
+    if fam:
+      # the ordinary values of the sample may hold a permuted-dict pair.
+      core = [l for l in lab.split('+') if l in ('permuted-dict-keys', 'same-qualname-classes')]
+      lab = '+'.join(core) if core else f'{fam}-leaves'
+    elif not _is_special(lab):
       lab = 'general'      # one id per defect; the pair/triple tables localise by kind.
     rec.case(f'sort.never-raises/{lab}', key, True)
-    special = 'permuted-dict-keys' in lab or 'same-qualname-classes' in lab
+    special = _is_special(lab)
     id_ordered = f'sort.order/{lab}' if special else f'sort.result-ordered/{lab}'
     id_unique = f'sort.order/{lab}' if special else f'sort.unique-up-to-eq/{lab}'
     # the result is ordered: no later element is less than an earlier one.
@@ -632,6 +816,402 @@ def drv_sort(tier, seed):
   return rec.result()
 
 
+# ---------------------------------------------------------------------------
+# Driver 3: the laws hold for values that have been mutated (or derived by
+# cloning and then mutated), i.e. eq / hash / lt always reflect the current
+# content.
+#
+# Scope: a target container (list, dict, object, typed dict) at depth 0..3
+# below chains of object / dict / list / typed-object layers; every public
+# mutator of the target, run in every notification mode (default, inside
+# pg.notify_on_change(False), rebind(skip_notification=True),
+# rebind(notify_parents=False)), rebind entered at the target and at the root;
+# with and without first using every observer (hash, pg.hash, eq, lt, ==,
+# sym_missing, ...) on every node of the chain; in place, or on a deep clone /
+# shallow clone / copy.deepcopy of the value; plus seeded sequences of 2-3 such
+# steps.  After each step every node on the chain is compared with a value
+# freshly built from its *current content* (read through sym_items): the two
+# are the same value, so they must be eq both ways, not ne, have equal hashes,
+# be neither less nor greater, order the same way against a third value, and
+# for opted-in classes ==, != and hash() must agree.
+# ---------------------------------------------------------------------------
+
+_LAYERS = {            # name: (template, accessor suffix, key in a path)
+    'obj': ('A({})', '.x', 'x'),
+    'obj2': ('C(0, {})', '.q', 'q'),
+    'dict': ('pg.Dict(k={}, z=0)', "['k']", 'k'),
+    'list': ('pg.List([0, {}])', '[1]', '[1]'),
+    'tlist': ('T(1, {})', '.tags', 'tags'),
+    'tdict': ('T(1, [4], {})', '.sub', 'sub'),
+}
+
+_CHAINS = [(), ('obj',), ('dict',), ('list',), ('obj2', 'obj'), ('obj', 'list'),
+           ('dict', 'obj'), ('list', 'dict'), ('obj', 'dict', 'list')]
+
+# target kind -> (expression, chains it is also placed below, ops).
+# op = (name, family, statement on `p`); rebind ops are given as
+# (name, 'rebind', {relative key: value source}).
+_TARGETS = {
+    'list': ('pg.List([3, 1, 2])', [('tlist',), ('obj', 'tlist')], [
+        ('setitem', 'assign', 'p[0] = 9'),
+        ('setitem-negative', 'assign', 'p[-1] = 9'),
+        ('setitem-slice', 'assign', 'p[0:2] = [7]'),
+        ('append', 'insert', 'p.append(9)'),
+        ('insert', 'insert', 'p.insert(0, 9)'),
+        ('extend', 'insert', 'p.extend([8, 9])'),
+        ('iadd', 'insert', 'p += [9]'),
+        ('pop', 'delete', 'p.pop()'),
+        ('pop-first', 'delete', 'p.pop(0)'),
+        ('delitem', 'delete', 'del p[0]'),
+        ('delitem-slice', 'delete', 'del p[0:2]'),
+        ('remove', 'delete', 'p.remove(1)'),
+        ('clear', 'delete', 'p.clear()'),
+        ('sort', 'reorder', 'p.sort()'),
+        ('reverse', 'reorder', 'p.reverse()'),
+        ('imul', 'repeat', 'p *= 2'),
+        ('rebind-item', 'rebind', {0: '9'}),
+        ('rebind-insertion', 'rebind', {0: 'pg.Insertion(9)'}),
+        ('rebind-delete', 'rebind', {1: 'pg.MISSING_VALUE'}),
+        ('rebind-append', 'rebind', {3: '9'}),
+    ]),
+    'dict': ('pg.Dict(a=1, b=2)', [], [
+        ('setitem', 'assign', "p['a'] = 9"),
+        ('setattr', 'assign', 'p.a = 9'),
+        ('setitem-container', 'assign', "p['a'] = [1, {'u': 2}]"),
+        ('update-existing', 'assign', 'p.update(a=9)'),
+        ('setitem-new', 'insert', "p['c'] = 3"),
+        ('update-new', 'insert', "p.update({'c': 3})"),
+        ('setdefault', 'insert', "p.setdefault('c', 3)"),
+        ('ior', 'insert', "p |= {'c': 3}"),
+        ('pop', 'delete', "p.pop('a')"),
+        ('delitem', 'delete', "del p['a']"),
+        ('delattr', 'delete', 'del p.a'),
+        ('popitem', 'delete', 'p.popitem()'),
+        ('clear', 'delete', 'p.clear()'),
+        ('rebind-item', 'rebind', {'a': '9'}),
+        ('rebind-new', 'rebind', {'c': '3'}),
+        ('rebind-delete', 'rebind', {'a': 'pg.MISSING_VALUE'}),
+        ('rebind-container', 'rebind', {'b': "[1, {'u': 2}]"}),
+    ]),
+    'obj': ('C(1, 2)', [], [
+        ('setattr', 'assign', 'with pg.allow_writable_accessors(True):\n  p.p = 9'),
+        ('rebind-field', 'rebind', {'p': '9'}),
+        ('rebind-container', 'rebind', {'p': '[1, A(2)]'}),
+        ('rebind-two', 'rebind', {'p': '9', 'q': '8'}),
+        ('rebind-fn', 'rebind-fn', "p.rebind(lambda k, v: 9 if k.key == 'p' else v{kw})"),
+    ]),
+    # objects of factory-made classes (only below the chains listed here).
+    'functor': (None, [(), ('obj',), ('list', 'dict')], [
+        ('setattr', 'assign', 'with pg.allow_writable_accessors(True):\n  p.x = 9'),
+        ('rebind-field', 'rebind', {'x': '9'}),
+        ('rebind-container', 'rebind', {'y': '[1, A(2)]'}),
+    ]),
+    'wrapped': (None, [(), ('obj',), ('list', 'dict')], [
+        ('setattr', 'assign', 'with pg.allow_writable_accessors(True):\n  p.x = 9'),
+        ('rebind-field', 'rebind', {'x': '9'}),
+        ('rebind-container', 'rebind', {'y': '[1, A(2)]'}),
+    ]),
+    'wrapped-eq': (None, [(), ('obj',), ('list', 'dict')], [
+        ('rebind-field', 'rebind', {'x': '9'}),
+        ('rebind-two', 'rebind', {'x': '9', 'y': '8'}),
+    ]),
+    'tdict': (None, [('tdict',), ('list', 'tdict')], [
+        ('setitem', 'assign', "p['u'] = 7"),
+        ('setattr', 'assign', 'p.w = [1]'),
+        ('delitem', 'delete', "del p['w']"),
+        ('pop', 'delete', "p.pop('u')"),
+        ('clear', 'delete', 'p.clear()'),
+        ('rebind-item', 'rebind', {'u': '7'}),
+        ('rebind-delete', 'rebind', {'w': 'pg.MISSING_VALUE'}),
+    ]),
+}
+_TARGET_SRC = {'list': 'pg.List([3, 1, 2])', 'dict': 'pg.Dict(a=1, b=2)',
+               'obj': 'C(1, 2)', 'tdict': "{'u': 2, 'w': 5}", 'functor': 'F(1, 2)',
+               'wrapped': 'W(1, 2)', 'wrapped-eq': 'WE(1, 2)'}
+
+
+def _target_chains(kind):
+  """The chains a target kind is placed below (None as expression: only the listed ones)."""
+  expr, extra, _ = _TARGETS[kind]
+  return ([] if expr is None else list(_CHAINS)) + list(extra)
+
+_MODES = ('default', 'notify_on_change-off')
+_REBIND_MODES = ('default', 'notify_on_change-off', 'skip_notification', 'notify_parents-off')
+_VIAS = ('inplace', 'deep-clone', 'shallow-clone', 'deepcopy')
+
+
+def _indent(code):
+  return '\n'.join('  ' + l for l in code.split('\n'))
+
+
+def _chain_expr(chain, target_src):
+  e = target_src
+  for name in reversed(chain):
+    e = _LAYERS[name][0].format(e)
+  return e
+
+
+def _chain_accessors(chain):
+  """Accessor suffixes of every node on the chain: ['', '.x', ".x['k']", ...]."""
+  out, acc = [''], ''
+  for name in chain:
+    acc += _LAYERS[name][1]
+    out.append(acc)
+  return out
+
+
+def _chain_path(chain):
+  path = ''
+  for name in chain:
+    k = _LAYERS[name][2]
+    path += k if (k.startswith('[') or not path) else '.' + k
+  return path
+
+
+def _join_path(path, key):
+  if isinstance(key, int):
+    return f'{path}[{key}]'
+  return f'{path}.{key}' if path else key
+
+
+def _step_stmts(kind, chain):
+  """All (op name, family, mode, statement) steps for a target below `chain`."""
+  path = _chain_path(chain)
+  out = []
+  for name, family, what in _TARGETS[kind][2]:
+    if family == 'rebind':
+      local = '{' + ', '.join(f'{k!r}: {v}' for k, v in what.items()) + '}'
+      root = '{' + ', '.join(f'{_join_path(path, k)!r}: {v}' for k, v in what.items()) + '}'
+      forms = [('rebind', f'p.rebind({local}{{kw}})')]
+      if chain:
+        forms.append(('rebind-from-root', f'a.rebind({root}{{kw}})'))
+    elif family == 'rebind-fn':
+      forms = [('rebind', what)]
+    else:
+      forms = [(family, what)]
+    for fam, stmt in forms:
+      if '{kw}' in stmt:
+        for mode in _REBIND_MODES:
+          kw = {'skip_notification': ', skip_notification=True',
+                'notify_parents-off': ', notify_parents=False'}.get(mode, '')
+          out.append((name, fam, mode, stmt.replace('{kw}', kw)))
+      else:
+        for mode in _MODES:
+          out.append((name, fam, mode, stmt))
+  return out
+
+
+def _step_code(stmt, mode):
+  if mode == 'notify_on_change-off':
+    stmt = 'with pg.notify_on_change(False):\n' + _indent(stmt)
+  # a refused / failing mutation is not this property's business; whatever
+  # state it leaves behind must still obey the laws.
+  return 'try:\n' + _indent(stmt) + '\nexcept Exception:\n  pass\n'
+
+
+class _NoRebuild(Exception):
+  pass
+
+
+_CLS_NAMES = {}      # class -> its name in the preamble (WE is a wrapper class named _K).
+
+
+def _src(v):
+  """Source of a freshly built value with the current content of v."""
+  if isinstance(v, pg.Object):
+    items = [(k, x) for k, x in v.sym_items()]
+    args = ', '.join(f'{k}={_src(x)}' for k, x in items
+                     if not isinstance(x, type(pg.MISSING_VALUE)))
+    partial = any(isinstance(x, type(pg.MISSING_VALUE)) for _, x in items)
+    return f'{_CLS_NAMES.get(type(v), type(v).__name__)}{".partial" if partial else ""}({args})'
+  if isinstance(v, dict):
+    items = v.sym_items() if isinstance(v, pg.Dict) else v.items()
+    return 'pg.Dict({' + ', '.join(f'{k!r}: {_src(x)}' for k, x in items
+                                   if not isinstance(x, type(pg.MISSING_VALUE))) + '})'
+  if isinstance(v, list):
+    items = list(v.sym_values() if isinstance(v, pg.List) else v)
+    if any(isinstance(x, type(pg.MISSING_VALUE)) for x in items):
+      raise _NoRebuild()      # pg.List drops MISSING_VALUE elements on construction.
+    return 'pg.List([' + ', '.join(_src(x) for x in items) + '])'
+  if isinstance(v, type(pg.MISSING_VALUE)):
+    return 'pg.MISSING_VALUE'
+  return repr(v)
+
+
+_WARM = ('for n in nodes(a):\n'
+         '  c = n.clone(deep=True); pg.hash(n); hash(n); n.sym_hash(); pg.eq(n, c); pg.lt(n, c); n == c\n'
+         '  n.sym_missing(); n.sym_nondefault(); n.sym_puresymbolic\n')
+
+# (law, assertion on n (mutated node), m (fresh, same content), o (fresh, original content of the root)).
+_MUT_LAWS = [
+    ('eq.same-value-iff-equal', 'pg.eq(n, m) is True and pg.eq(m, n) is True'),
+    ('ne.is-not-eq', 'pg.ne(n, m) is False and pg.ne(m, n) is False'),
+    ('hash.equal-for-equal-values', 'pg.hash(n) == pg.hash(m)'),
+    ('sym_hash.agrees-with-pg.hash', 'n.sym_hash() == pg.hash(n)'),
+    ('lt.trichotomy', 'not pg.lt(n, m) and not pg.lt(m, n) and not pg.gt(n, m) and not pg.gt(m, n)'),
+    ('sym_eq.agrees-with-function', 'n.sym_eq(m) is True and n.sym_ne(m) is False'),
+    ('sym_lt.agrees-with-function', 'n.sym_lt(m) is False and n.sym_gt(m) is False'),
+    ('eq.transitive', 'pg.eq(n, o) == pg.eq(m, o) and pg.eq(o, n) == pg.eq(o, m)'),
+    ('lt.respects-eq-left', 'pg.lt(n, o) == pg.lt(m, o)'),
+    ('lt.respects-eq-right', 'pg.lt(o, n) == pg.lt(o, m)'),
+]
+_MUT_LAWS_OPTED_IN = [
+    ('operator.hash-agrees', 'hash(n) == pg.hash(n) and hash(n) == hash(m) and len({n, m}) == 1 and m in {n: 0}'),
+    ('operator.==agrees', '(n == m) is True and (m == n) is True'),
+    ('operator.!=agrees', '(n != m) is False and (m != n) is False'),
+]
+
+
+def drv_mutation(tier, seed):
+  rec = Recorder(
+      'C06', 'eq/ne/lt/hash laws between a mutated (or cloned-then-mutated) value and a fresh value of the same content',
+      scope='targets list/dict/object/typed dict below chains of <=3 object/dict/list/typed-object layers; '
+            'every public mutator x notification mode (default, notify_on_change(False), skip_notification, '
+            'notify_parents=False) x rebind at target/root x observers used before or not x '
+            'in place / deep clone / shallow clone / deepcopy; seeded 2-3 step sequences')
+  base = _new_ns('c06mut')
+  exec(PRE + 'import copy\n', base)  # pylint: disable=exec-used
+  _CLS_NAMES.update({v: k for k, v in base.items() if inspect.isclass(v) and not k.startswith('_')})
+  compiled = {}
+
+  def run(code, ns):
+    c = compiled.get(code)
+    if c is None:
+      c = compiled[code] = compile(code, '<c06>', 'exec')
+    exec(c, ns)  # pylint: disable=exec-used
+
+  def ev(expr, ns):
+    c = compiled.get(('e', expr))
+    if c is None:
+      c = compiled[('e', expr)] = compile(expr, '<c06>', 'eval')
+    return eval(c, ns)  # pylint: disable=eval-used
+
+  skipped = [0]
+  law_code = {}
+  for law, cond in _MUT_LAWS + _MUT_LAWS_OPTED_IN:
+    law_code[law] = compile(cond, '<c06-law>', 'eval')
+
+  def scenario(kind, chain, steps, warm, via):
+    """steps: [(op name, family, mode, stmt)]; checks after every step."""
+    expr = _chain_expr(chain, _TARGET_SRC[kind])
+    accs = _chain_accessors(chain)
+    setup = f'a = {expr}\n'
+    if via == 'deep-clone':
+      setup = f's = {expr}\n{{warm_s}}a = s.clone(deep=True)\n'
+    elif via == 'shallow-clone':
+      setup = f's = {expr}\n{{warm_s}}a = s.clone()\n'
+    elif via == 'deepcopy':
+      setup = f'import copy\ns = {expr}\n{{warm_s}}a = copy.deepcopy(s)\n'
+    nodes_def = 'nodes = lambda r: [' + ', '.join('r' + x for x in accs) + ']\n'
+    warm_code = _WARM if warm else ''
+    setup = nodes_def + setup.replace('{warm_s}', warm_code.replace('nodes(a)', 'nodes(s)'))
+    code = setup + warm_code + f'p = a{accs[-1]}\n'
+    ns = dict(base)
+    try:
+      run(code, ns)
+    except Exception as e:  # pylint: disable=broad-except
+      rec.case(f'mutation.setup/{via}', (kind, chain, warm), False,
+               f'building / observing the value raised {type(e).__name__}: {e}',
+               _fit(_pre(expr) + code, expr))
+      return
+    done = code
+    observe = 'try:\n' + _indent(_WARM.rstrip('\n')) + '\nexcept Exception:\n  pass\n'
+    for n_done, (name, family, mode, stmt) in enumerate(steps):
+      step = _step_code(stmt, mode)
+      if n_done:
+        step = observe + step       # every observer is used again between two steps.
+      run(step, ns)
+      done += step
+      key = (kind, chain, tuple(s[0] + '@' + s[2] for s in steps), warm, via)
+      if len(steps) > 1:
+        # sequences: one input class for "all steps notified", one for the rest.
+        quiet = any(s[2] != 'default' for s in steps[:n_done + 1])
+        suffix = 'after-sequence/' + ('some-notification-off' if quiet else 'default')
+      else:
+        suffix = f'after-{family}/{mode}'
+      suffix += '' if via == 'inplace' else '+copied'      # the kind of copy is in the key.
+      subjects = [('a', ns['a'])]
+      if via != 'inplace':
+        subjects.append(('s', ns['s']))     # the source of the clone obeys the laws, too.
+      for var, root in subjects:
+        try:
+          nodes = ns['nodes'](root)
+        except Exception:  # pylint: disable=broad-except
+          nodes = [root]                     # the chain was cut by the mutation.
+        o_src = expr
+        try:
+          o = ev(o_src, ns)
+        except Exception:  # pylint: disable=broad-except
+          continue
+        for idx, n in enumerate(nodes):
+          if not isinstance(n, pg.Symbolic):
+            continue
+          if tier == 'quick' and 0 < idx < len(nodes) - 1:
+            continue                         # quick: the root and the mutated target.
+          try:
+            m_src = _src(n)
+          except _NoRebuild:
+            skipped[0] += 1                  # e.g. a list left with a MISSING_VALUE element:
+            continue                         # no fresh value has this content.
+          try:
+            m = ev(m_src, ns)
+          except Exception as e:  # pylint: disable=broad-except
+            rec.case(f'mutation.rebuild/{suffix}', key, False,
+                     f'cannot rebuild a fresh value from the content: {type(e).__name__}: {e}',
+                     _fit(_pre(expr) + done + f'n = nodes({var})[{idx}]\nprint(n)\nraise AssertionError("content of n cannot be rebuilt")', key))
+            continue
+          env = dict(pg=pg, n=n, m=m, o=o)
+          laws = _MUT_LAWS + (_MUT_LAWS_OPTED_IN if _opted_in(n) else [])
+          sfx = suffix + ('/source-of-clone' if var == 's' else '')
+          rec.keys.add((sfx, repr(key), idx))
+          for law, cond in laws:
+            try:
+              ok, msg = bool(eval(law_code[law], env)), f'not ({cond})'  # pylint: disable=eval-used
+            except Exception as e:  # pylint: disable=broad-except
+              ok, msg = False, f'{cond} raised {type(e).__name__}: {e}'
+            if ok:
+              rec.cases += 1
+              continue
+            rec.case(f'{law}/{sfx}', key + (idx,), False,
+                     f'{msg}; n = node {idx} of the chain after {name!r}, m = {m_src}',
+                     _fit(_pre(expr, m_src) + done +
+                          f'n = nodes({var})[{idx}]\nm = {m_src}\no = {o_src}\nassert {cond}', key))
+
+  # (in a sequence every observer is used again after each step, see `observe`.)
+  # ---- systematic sweep: single steps.  The quick tier runs every step with
+  # the observers used first; the cold variant (default mode) runs on the
+  # shallow chains, the clone variants on the shallow chains and the deepest
+  # one.  The thorough tier runs everything.
+  full = tier != 'quick'
+  via_chains = {'deep-clone': ((), ('obj',), ('obj', 'dict', 'list'), ('obj', 'tlist'), ('tdict',)),
+                'shallow-clone': (('obj',), ('tdict',)),
+                'deepcopy': ((), ('obj', 'tlist'))}
+  for kind in _TARGETS:
+    for chain in _target_chains(kind):
+      shallow = len(chain) <= 1
+      for st in _step_stmts(kind, chain):
+        scenario(kind, chain, [st], True, 'inplace')
+        if full or (shallow and st[2] == 'default'):
+          scenario(kind, chain, [st], False, 'inplace')
+        if st[2] in ('default', 'notify_on_change-off'):
+          for via in _VIAS[1:]:
+            if full or chain in via_chains[via]:
+              scenario(kind, chain, [st], True, via)
+
+  # ---- seeded sequences of 2-3 steps.
+  r = rng(seed, 'c06-mutation-' + tier)
+  n_seq = 300 if tier == 'quick' else 6000
+  kinds = list(_TARGETS)
+  for _ in range(n_seq):
+    kind = r.choice(kinds)
+    chain = r.choice(_target_chains(kind))
+    pool = _step_stmts(kind, chain)
+    steps = [r.choice(pool) for _ in range(r.randrange(2, 4))]
+    scenario(kind, chain, steps, r.random() < 0.7, r.choice(_VIAS + ('inplace',) * 3))
+  rec.scope += f'; {skipped[0]} node states skipped (content not constructible)'
+  return rec.result()
+
+
 
 def _safe(drv):
   """Last resort: an exception that escapes a driver is reported as a failed case
@@ -652,7 +1232,7 @@ def _safe(drv):
   return run
 
 
-DRIVERS = [_safe(d) for d in (drv_laws, drv_sort)]
+DRIVERS = [_safe(d) for d in (drv_laws, drv_sort, drv_mutation)]
 
 
 def replay(rec):
